@@ -191,19 +191,22 @@ def goneRec (c : Conn) : Conn :=
     exts := 0
     freed := true }
 
+def goneCore (v : Variant) (w : World) (i : Nat) (c : Conn) : World :=
+  let w1 : World := { w with
+    list := w.list.erase i
+    screens := if c.refHeld then decRef w.screens c.scr else w.screens
+    wsLostGone := w.wsLostGone + (if c.wspath && !v.goneWspath then 1 else 0)
+    stray := w.stray + (if c.ftFd && !v.ftClose then 1 else 0)
+    extLost := w.extLost + (if v.extFree then 0 else c.exts) }
+  let w2 := if c.sockOpen then emit w1 (.close i) else w1
+  let w3 := modConn w2 i goneRec
+  if c.hooked then emit w3 (.gone i) else w3
+
 def gone (v : Variant) (w : World) (i : Nat) : World :=
   match w.conns[i]? with
   | none => w
   | some c =>
-    let w1 : World := { w with
-      list := w.list.erase i
-      screens := if c.refHeld then decRef w.screens c.scr else w.screens
-      wsLostGone := w.wsLostGone + (if c.wspath && !v.goneWspath then 1 else 0)
-      stray := w.stray + (if c.ftFd && !v.ftClose then 1 else 0)
-      extLost := w.extLost + (if v.extFree then 0 else c.exts) }
-    let w2 := if c.sockOpen then emit w1 (.close i) else w1
-    let w3 := modConn w2 i goneRec
-    let w4 := if c.hooked then emit w3 (.gone i) else w3
+    let w4 := goneCore v w i c
     -- the application's gone hook may close another client it knows
     match c.goneKick with
     | some k => if c.hooked && appKnows w4 k then closeClient w4 k else w4
@@ -214,40 +217,58 @@ def gone (v : Variant) (w : World) (i : Nat) : World :=
 /-- `ws`: number of "GET" lines of a WebSocket upgrade request the peer has already sent (0: plain
 RFB client). `nb`: `rfbSetNonBlocking` fails. `x`: an I/O failure during the WebSocket check /
 handshake (`rd`, or `wr` of the handshake answer) or when writing the server's version (`wr`). -/
+def nbFail (v : Variant) (w : World) : World :=
+  -- calloc, refcount++, rfbCloseSocket(sock), return NULL  (variant: refcount--, free(cl))
+  let i := w.conns.length
+  let lost : Conn := { sockOpen := false, closeCalls := 1, refHeld := !v.nbFree, freed := v.nbFree }
+  let w : World := { w with
+    conns := w.conns ++ [lost]
+    screens := if v.nbFree then w.screens else incRef w.screens (64, 48)
+    nbLost := w.nbLost + (if v.nbFree then 0 else 1) }
+  emit (emit w (.close i)) (.ret i false)
+
+/-- calloc, scaledScreen = screen, refcount++, linked at the head of the client list -/
+def spawn (w : World) : World :=
+  { w with conns := w.conns ++ [{}], screens := incRef w.screens (64, 48), list := w.conns.length :: w.list }
+
+/-- the WebSocket handshake stores a copy of the path of every "GET" line in `cl->wspath` -/
+def wsStage (v : Variant) (w : World) (i ws : Nat) : World :=
+  if ws > 0 then
+    { (modConn w i fun c => { c with wspath := true }) with
+      wsLostHs := w.wsLostHs + (if v.wsOnePath then 0 else ws - 1) }
+  else w
+
+/-- `rfbCloseClient(cl); rfbClientConnectionGone(cl); return NULL;` -/
+def bail (v : Variant) (w : World) (i : Nat) : World :=
+  emit (gone v (closeClient w i) i) (.ret i false)
+
+/-- the application's newClientHook decides -/
+def hookStage (v : Variant) (w : World) (i : Nat) (h : Hook) : World :=
+  let w := emit (modConn w i fun c => { c with hooked := true }) (.hook i h)
+  match h with
+  | .accept => emit w (.ret i true)
+  | .hold => emit (modConn w i fun c => { c with onHold := true }) (.ret i true)
+  | .refuse => bail v w i
+
+/-- extensions' newClient (an enabled extension gets a list node), then the newClientHook -/
+def acceptHook (v : Variant) (w : World) (i : Nat) (h : Hook) : World :=
+  hookStage v (if w.extOn then modConn w i fun c => { c with exts := 1 } else w) i h
+
+/-- after a successful WebSocket check: wsctx exists for WebSocket clients; the server's protocol
+version is written -/
+def acceptVersion (v : Variant) (w : World) (i : Nat) (h : Hook) (ws : Nat) (x : Fail) : World :=
+  let w := if ws > 0 then modConn w i fun c => { c with wsctx := true } else w
+  if x == .wr then bail v w i else acceptHook v w i h
+
 def accept (v : Variant) (w : World) (h : Hook) (ws : Nat) (nb : Bool) (x : Fail) : World :=
   let i := w.conns.length
   let w := emit w (.new i)
-  if nb then
-    -- calloc, refcount++, rfbCloseSocket(sock), return NULL  (variant: refcount--, free(cl))
-    let lost : Conn := { sockOpen := false, closeCalls := 1, refHeld := !v.nbFree, freed := v.nbFree }
-    let w : World := { w with
-      conns := w.conns ++ [lost]
-      screens := if v.nbFree then w.screens else incRef w.screens (64, 48)
-      nbLost := w.nbLost + (if v.nbFree then 0 else 1) }
-    emit (emit w (.close i)) (.ret i false)
+  if nb then nbFail v w
   else
-    -- calloc, scaledScreen = screen, refcount++, linked at the head of the client list
-    let w : World := { w with
-      conns := w.conns ++ [{}], screens := incRef w.screens (64, 48), list := i :: w.list }
     -- webSocketsCheck
-    let w : World := if ws > 0 then
-        { (modConn w i fun c => { c with wspath := true }) with
-          wsLostHs := w.wsLostHs + (if v.wsOnePath then 0 else ws - 1) }
-      else w
-    if x == .rd || (x == .wr && ws > 0) then
-      emit (gone v (closeClient w i) i) (.ret i false)
-    else
-      let w := if ws > 0 then modConn w i fun c => { c with wsctx := true } else w
-      if x == .wr then
-        emit (gone v (closeClient w i) i) (.ret i false)
-      else
-        -- extensions' newClient, then the application's newClientHook
-        let w := if w.extOn then modConn w i fun c => { c with exts := 1 } else w
-        let w := emit (modConn w i fun c => { c with hooked := true }) (.hook i h)
-        match h with
-        | .accept => emit w (.ret i true)
-        | .hold => emit (modConn w i fun c => { c with onHold := true }) (.ret i true)
-        | .refuse => emit (gone v (closeClient w i) i) (.ret i false)
+    let w := wsStage v (spawn w) i ws
+    if x == .rd || (x == .wr && ws > 0) then bail v w i
+    else acceptVersion v w i h ws x
 
 /-! ### one client message: `rfbProcessClientMessage` -/
 
@@ -317,6 +338,13 @@ def msgOk (st : St) (m : Msg) : Bool :=
   | .normal, .junk | .normal, .part | .normal, .ft => true
   | _, _ => false
 
+/-- does the server answer this message (or send an update for it)?  Once the peer has closed, the
+first such write fails (EPIPE). -/
+def msgWrites : Msg → Bool
+  | .ver | .sec | .init _ | .req | .ft => true
+  | .scale k => k != 0
+  | _ => false
+
 /-- process the first message in the inbox of `i` (precondition: open, not on hold, inbox ≠ []).
 `x`: observed I/O failure while doing so. `.rd`: nothing but `rfbCloseClient`.  `.wr`: the part of
 the message's effect that precedes the failing write (scale: the reference has moved; ft: the
@@ -329,6 +357,7 @@ def procMsg (v : Variant) (w : World) (i : Nat) (x : Fail) (r : Res) : World :=
     | [] => w
     | m :: rest =>
       let w := modConn w i fun c => { c with inbox := rest }
+      let x := if x == .none && !c.peerOpen && msgWrites m then Fail.wr else x
       match x with
       | .rd => closeClient w i
       | .wr =>
@@ -410,15 +439,23 @@ def sweep (v : Variant) (f : World → Nat → World) (w wDec : World) : List Na
     if !v.closedToo && !isOpen wDec i then sweep v f w wDec rest
     else sweep v f (f w i) w rest
 
+/-- one client of `rfbShutdownServer`: `rfbCloseClient` if still open, `rfbClientConnectionGone` -/
+def shutOne (v : Variant) (w : World) (i : Nat) : World :=
+  if w.list.contains i then gone v (closeClient w i) i else w
+
+/-- one client of `rfbScreenCleanup`: `rfbClientConnectionGone` -/
+def cleanOne (v : Variant) (w : World) (i : Nat) : World :=
+  if w.list.contains i then gone v w i else w
+
 /-- `rfbShutdownServer(screen, TRUE)`, non-threaded -/
 def shutdown (v : Variant) (w : World) : World :=
-  let w1 := sweep v (fun w i => if w.list.contains i then gone v (closeClient w i) i else w) w w w.list
+  let w1 := sweep v (shutOne v) w w w.list
   { w1 with shutLeft := w1.shutLeft + w1.list.length }
 
 /-- `rfbScreenCleanup`: `rfbClientConnectionGone` for every client the iterator yields, then the
 screen itself is freed: whatever is still listed is lost. -/
 def cleanup (v : Variant) (w : World) : World :=
-  let w1 := sweep v (fun w i => if w.list.contains i then gone v w i else w) w w w.list
+  let w1 := sweep v (cleanOne v) w w w.list
   { w1 with cleaned := true, recLost := w1.recLost + w1.list.length }
 
 /-! ### operations of the application / the peers -/
